@@ -32,6 +32,9 @@ from .subc_fold import oracle_cuts, SUPPORTED
 from .tables import Denotations
 from . import semantics
 
+DEBUG = False
+# (synthesiser oracle, basis, cut size, cuts enumerated in reverse order)
+CONFIGS = [('search', 'XAIG', 2, False), ('search', 'XAIG', 3, False), ('search', 'AIG', 2, True), ('search', 'AIG', 3, False), ('search', 'XAIG', 3, True), ('none', 'XAIG', 3, False), ('none', 'AIG', 2, True)]
 SUBC = 'cirbo.minimization.subcircuit'
 SEARCH = 'cirbo.synthesis.circuit_search'
 
@@ -57,6 +60,18 @@ def _family(tier):
         ([('a', 'INPUT', ()), ('b', 'INPUT', ()), ('c', 'INPUT', ()), ('g0', 'AND', ('a', 'b')), ('g1', 'OR', ('a', 'g0')), ('h', 'XOR', ('b', 'c'))], ['g1', 'h', 'g1']),
         # an improvable cone with two circuit outputs listed against their topological order and followed by a foreign output
         ([('a', 'INPUT', ()), ('b', 'INPUT', ()), ('c', 'INPUT', ()), ('n0', 'OR', ('a', 'b')), ('n1', 'NAND', ('a', 'b')), ('o1', 'AND', ('n0', 'n1')), ('z', 'OR', ('b', 'c'))], ['o1', 'n1', 'z']),
+        # a cut through gates no output depends on
+        ([('x0', 'INPUT', ()), ('x1', 'INPUT', ()), ('x2', 'INPUT', ()), ('g0', 'XOR', ('x1', 'x0')), ('g1', 'LT', ('g0', 'x2')), ('g2', 'XOR', ('x0', 'x2'))], ['g2']),
+        # a synthesised cone with more inner gates than the region it replaces
+        ([('x0', 'INPUT', ()), ('x1', 'INPUT', ()), ('g0', 'NOR', ('x1', 'x1')), ('g1', 'LT', ('x1', 'x1')), ('g2', 'AND', ('x1', 'x0')), ('g3', 'LEQ', ('g2', 'x1'))], ['g3', 'g0', 'g0']),
+        # the same when every gate of the region is an output (three complements of found patterns, XOR to be built from AND-like gates)
+        ([('a', 'INPUT', ()), ('b', 'INPUT', ()), ('f', 'XOR', ('a', 'b')), ('n1', 'NAND', ('a', 'a')), ('n2', 'NOR', ('b', 'b')), ('n3', 'NXOR', ('a', 'b'))], ['f', 'n1', 'n2', 'n3']),
+        # a complement of a leaf listed before an improvable output of the same two-leaf cone
+        ([('a', 'INPUT', ()), ('b', 'INPUT', ()), ('u', 'AND', ('a', 'b')), ('v', 'OR', ('a', 'b')), ('y', 'XOR', ('u', 'v')), ('x', 'NAND', ('a', 'a'))], ['y', 'x']),
+        # a later cone shares an inner gate of a cone that was replaced
+        ([('x0', 'INPUT', ()), ('x1', 'INPUT', ()), ('x2', 'INPUT', ()), ('g0', 'XOR', ('x2', 'x0')), ('g1', 'NOR', ('x2', 'x2')), ('g2', 'NAND', ('x1', 'g1')), ('g3', 'NOR', ('x0', 'x0')), ('g4', 'NOR', ('x1', 'g1')), ('g5', 'NOT', ('g2',)), ('g6', 'LT', ('g4', 'g2'))], ['g6']),
+        # a cone output equal to a leaf that other gates read
+        ([('a', 'INPUT', ()), ('b', 'INPUT', ()), ('c', 'INPUT', ()), ('g0', 'AND', ('a', 'b')), ('g1', 'OR', ('a', 'g0')), ('h', 'XOR', ('g1', 'c')), ('k', 'AND', ('g1', 'g1'))], ['h', 'k']),
         # a dead gate inside a cone
         ([('u', 'INPUT', ()), ('v', 'INPUT', ()), ('c', 'INPUT', ()), ('m', 'NOT', ('u',)), ('p', 'GT', ('m', 'v')), ('q', 'NAND', ('p', 'm')), ('k', 'LT', ('m', 'p')), ('h', 'GEQ', ('c', 'p'))], ['h', 'k']),
     ]
@@ -103,7 +118,7 @@ def _nontrivial(c):
 
 
 class _Finder(Host):
-    """Oracle for CircuitFinderSat: exhaustive search over <= 2 gates in the basis, honouring don't-cares."""
+    """Oracle for CircuitFinderSat: exhaustive search over <= 2 gates (<= 3 over two inputs) in the basis, honouring don't-cares."""
 
     mode = 'search'
     M = None
@@ -121,7 +136,7 @@ class _Finder(Host):
         ops = getattr(self.basis, 'value', self.basis)
         codes = sorted({op.value for op in ops})
         from .rules.C06 import enumerate_structures, natural_values
-        for N in range(1, min(self.n_gates, 2) + 1):
+        for N in range(1, min(self.n_gates, 3 if n <= 2 else 2) + 1):
             gates = list(range(n, n + N))
             pair_choices = [list(itertools.combinations(range(g), 2)) for g in gates]
             for preds in itertools.product(*pair_choices):
@@ -167,7 +182,10 @@ def fold_minimize(ck: Checker, R: str):
         class V:
             pass
         view = _View(c)
-        return {node: [list(cut) for cut in cuts] for node, cuts in oracle_cuts(view, cut_size).items()}
+        found = [(node, [list(cut) for cut in cuts]) for node, cuts in oracle_cuts(view, cut_size).items()]
+        if current.get('rev'):
+            found = [(node, cuts[::-1]) for node, cuts in reversed(found)]
+        return dict(found)
     it.externals['mockturtle_wrapper.enumerate_cuts'] = enumerate_cuts
     it.overrides['mockturtle_wrapper.enumerate_cuts'] = enumerate_cuts
     fn = sm.func('minimize_subcircuits')
@@ -177,27 +195,31 @@ def fold_minimize(ck: Checker, R: str):
     for spec, outs in _family(ck.tier):
         inputs = [l for l, t, _ in spec if t == 'INPUT']
         has_equiv = _equivalent_gates(spec)
-        for mode in ('search', 'none'):
-            for basis in ('XAIG', 'AIG'):
-                for cut_size in (2, 3):
+        for mode, basis, cut_size, rev in CONFIGS:
+                if True:
                     n += 1
                     _Finder.mode = mode
+                    current['rev'] = rev
                     c = M.new_circuit(spec, outs)
                     current['c'] = c
                     before_tt = [[state_values(c, dict(zip(inputs, bits)))[o] for bits in itertools.product((False, True), repeat=len(inputs))] for o in outs]
                     size0 = _nontrivial(c)
-                    desc = f'{[(l, t) + tuple(o) for l, t, o in spec if t != "INPUT"]} outputs {list(outs)} (basis {basis}, cuts of <= {cut_size} leaves, synthesiser oracle: {mode})'
+                    desc = f'{[(l, t) + tuple(o) for l, t, o in spec if t != "INPUT"]} outputs {list(outs)} (basis {basis}, cuts of <= {cut_size} leaves{", enumerated in reverse" if rev else ""}, synthesiser oracle: {mode})'
                     it.steps = 0
                     M.den.interp.steps = 0
                     try:
                         res = run(c, basis=basis, cut_size=cut_size, max_subcircuit_size=6, solver_time_limit_sec=1)
                     except InterpRaise as e:
+                        if DEBUG:
+                            print('RUN', desc, 'raises', e.exc_name, has_equiv)
                         if has_equiv:
                             continue     # the statement promises completion only without functionally equivalent gates
                         key = e.exc_name if e.exc_name in buckets else 'other internal error'
                         buckets[key].append(f'raises {e.exc_name} on {desc}')
                         continue
                     d = res._d
+                    if DEBUG:
+                        print('RUN', desc, '=>', [(l, g.gate_type.name) + tuple(g.operands) for l, g in d['_gates'].items() if g.gate_type.name != 'INPUT'], list(d['_outputs']))
                     if list(d['_inputs']) != inputs or len(d['_outputs']) != len(outs) or cm.invariant_problems(res):
                         buckets['interface'].append(f'result has inputs {list(d["_inputs"])}, {len(d["_outputs"])} outputs' + (f', {cm.invariant_problems(res)[0]}' if cm.invariant_problems(res) else '') + f' on {desc}')
                         continue
@@ -207,7 +229,7 @@ def fold_minimize(ck: Checker, R: str):
                         buckets['interface'].append(f'the result cannot be evaluated on {desc}')
                         continue
                     wrong = after_tt != before_tt
-                    if mode == 'search' and cut_size == 3:
+                    if mode == 'search' and cut_size == 3 and not rev:
                         # the same run with validation enabled: FailedValidationError exactly when the unvalidated result is wrong
                         c2 = M.new_circuit(spec, outs)
                         current['c'] = c2
